@@ -1,6 +1,6 @@
 (* C12 — Duration arithmetic and rounding casts are exact rational arithmetic.
-   Property theorems only: each is closed by [exact] of a lemma proved in Proofs*.v, followed by
-   Print Assumptions.
+   Property theorems only: each is closed by [exact] of a lemma proved in Proofs*.v; Print Assumptions
+   is called on groups of them at the end of the file.
 
    Reading guide.  [Dur w n d] is the model of the type duration<Rep, ratio<n, d>> with Rep a
    signed integer of w bits (rep_ok: w = 32 or 64) and n/d in lowest terms, positive,
@@ -17,19 +17,16 @@ Local Open Scope Z_scope.
 (** * ratio, gcd, lcm *)
 Theorem C12_gcd : forall m n, 0 < m <= max64 -> 0 <= n <= max64 -> gcd_m m n = Val (Z.gcd m n).
 Proof. exact gcd_m_spec. Qed.
-Print Assumptions C12_gcd.
 
 Theorem C12_lcm : forall m n, 0 < m <= max64 -> 0 < n <= max64 -> Z.lcm m n <= max64 ->
   lcm_m m n = Val (Z.lcm m n).
 Proof. exact lcm_m_spec. Qed.
-Print Assumptions C12_lcm.
 
 (* ratio<N, D>::num / ::den are N, D divided by their gcd, and form a period in the above sense *)
 Theorem C12_ratio_normalises : forall w N D, 0 < N <= max64 -> 0 < D <= max64 ->
   mk_dty w N D = Val (Dur w (N / Z.gcd N D) (D / Z.gcd N D))
   /\ period_ok (N / Z.gcd N D) (D / Z.gcd N D) = true.
 Proof. intros w N D HN HD. split; [apply mk_dty_spec|apply reduced_period_ok]; assumption. Qed.
-Print Assumptions C12_ratio_normalises.
 
 (* ratio<N, D> with operands of either sign: the denominator is made positive, the fraction reduced,
    the value N/D preserved *)
@@ -40,7 +37,6 @@ Theorem C12_ratio_signed : forall N D, D <> 0 -> - max64 <= N <= max64 -> - max6
   /\ Z.gcd (Z.sgn N * Z.sgn D * (Z.abs N / g)) (Z.abs D / g) = 1
   /\ (Z.sgn N * Z.sgn D * (Z.abs N / g)) * D = N * (Z.abs D / g).
 Proof. exact ratio_m_signed. Qed.
-Print Assumptions C12_ratio_signed.
 
 (** * duration_cast, floor, ceil, round, abs *)
 Theorem C12_duration_cast_trunc : forall w1 n1 d1 w2 n2 d2 c,
@@ -48,40 +44,34 @@ Theorem C12_duration_cast_trunc : forall w1 n1 d1 w2 n2 d2 c,
   cast_ok w1 n1 d1 w2 n2 d2 c = true ->
   duration_cast_m (Dur w1 n1 d1) (Dur w2 n2 d2) c = Val (cast_spec n1 d1 n2 d2 c).
 Proof. exact duration_cast_spec. Qed.
-Print Assumptions C12_duration_cast_trunc.
 
 Theorem C12_floor : forall w1 n1 d1 w2 n2 d2,
   rep_ok w1 = true -> rep_ok w2 = true -> period_ok n1 d1 = true -> period_ok n2 d2 = true ->
   forall c, floor_ok w1 n1 d1 w2 n2 d2 c = true ->
   floor_m (Dur w1 n1 d1) (Dur w2 n2 d2) c = Val (floor_spec n1 d1 n2 d2 c).
 Proof. exact floor_m_spec. Qed.
-Print Assumptions C12_floor.
 
 Theorem C12_ceil : forall w1 n1 d1 w2 n2 d2,
   rep_ok w1 = true -> rep_ok w2 = true -> period_ok n1 d1 = true -> period_ok n2 d2 = true ->
   forall c, ceil_ok w1 n1 d1 w2 n2 d2 c = true ->
   ceil_m (Dur w1 n1 d1) (Dur w2 n2 d2) c = Val (ceil_spec n1 d1 n2 d2 c).
 Proof. exact ceil_m_spec. Qed.
-Print Assumptions C12_ceil.
 
 Theorem C12_round_half_even : forall w1 n1 d1 w2 n2 d2,
   rep_ok w1 = true -> rep_ok w2 = true -> period_ok n1 d1 = true -> period_ok n2 d2 = true ->
   forall c, round_ok w1 n1 d1 w2 n2 d2 c = true ->
   round_m (Dur w1 n1 d1) (Dur w2 n2 d2) c = Val (round_spec n1 d1 n2 d2 c).
 Proof. exact round_m_spec. Qed.
-Print Assumptions C12_round_half_even.
 
 Theorem C12_abs : forall w n d c, period_ok n d = true -> abs_ok w c = true ->
   abs_m (Dur w n d) c = Val (abs_spec c).
 Proof. exact abs_m_spec. Qed.
-Print Assumptions C12_abs.
 
 (** * the common type and conversion to it *)
 Theorem C12_common_type : forall w1 n1 d1 w2 n2 d2,
   period_ok n1 d1 = true -> period_ok n2 d2 = true -> cden d1 d2 <= max64 ->
   common_m (Dur w1 n1 d1) (Dur w2 n2 d2) = Val (Dur (Z.max w1 w2) (cnum n1 n2) (cden d1 d2)).
 Proof. exact common_m_spec. Qed.
-Print Assumptions C12_common_type.
 
 (* conversion to the common type never rounds: CD(lhs).count() = c1 * (n1/d1)/(g/l), an integer
    multiple, and likewise for rhs *)
@@ -96,7 +86,6 @@ Proof.
   - rewrite in_common_l, in_common_r. apply to_common_m_spec; assumption.
   - apply in_common_exact; assumption.
 Qed.
-Print Assumptions C12_common_type_exact.
 
 (* the converting constructor participates exactly when the source period is a representable
    integer multiple of the target period ([time.duration.cons]: "no overflow is induced in the
@@ -113,7 +102,6 @@ Proof.
   - apply convertible_m_spec; assumption.
   - intros c He Hc. apply conv_m_spec; assumption.
 Qed.
-Print Assumptions C12_converting_constructor.
 
 (** * + - / % == != < <= > >= on two durations *)
 Theorem C12_plus : forall w1 n1 d1 w2 n2 d2,
@@ -121,28 +109,24 @@ Theorem C12_plus : forall w1 n1 d1 w2 n2 d2,
   forall c1 c2, plus_ok w1 n1 d1 w2 n2 d2 c1 c2 = true ->
   plus_m (Dur w1 n1 d1) (Dur w2 n2 d2) c1 c2 = Val (plus_spec n1 d1 n2 d2 c1 c2).
 Proof. exact plus_m_spec. Qed.
-Print Assumptions C12_plus.
 
 Theorem C12_minus : forall w1 n1 d1 w2 n2 d2,
   rep_ok w1 = true -> rep_ok w2 = true -> period_ok n1 d1 = true -> period_ok n2 d2 = true ->
   forall c1 c2, minus_ok w1 n1 d1 w2 n2 d2 c1 c2 = true ->
   minus_m (Dur w1 n1 d1) (Dur w2 n2 d2) c1 c2 = Val (minus_spec n1 d1 n2 d2 c1 c2).
 Proof. exact minus_m_spec. Qed.
-Print Assumptions C12_minus.
 
 Theorem C12_div : forall w1 n1 d1 w2 n2 d2,
   rep_ok w1 = true -> rep_ok w2 = true -> period_ok n1 d1 = true -> period_ok n2 d2 = true ->
   forall c1 c2, div_ok w1 n1 d1 w2 n2 d2 c1 c2 = true ->
   div_m (Dur w1 n1 d1) (Dur w2 n2 d2) c1 c2 = Val (div_spec n1 d1 n2 d2 c1 c2).
 Proof. exact div_m_spec. Qed.
-Print Assumptions C12_div.
 
 Theorem C12_mod : forall w1 n1 d1 w2 n2 d2,
   rep_ok w1 = true -> rep_ok w2 = true -> period_ok n1 d1 = true -> period_ok n2 d2 = true ->
   forall c1 c2, div_ok w1 n1 d1 w2 n2 d2 c1 c2 = true ->
   mod_m (Dur w1 n1 d1) (Dur w2 n2 d2) c1 c2 = Val (mod_spec n1 d1 n2 d2 c1 c2).
 Proof. exact mod_m_spec. Qed.
-Print Assumptions C12_mod.
 
 Theorem C12_compare : forall w1 n1 d1 w2 n2 d2,
   rep_ok w1 = true -> rep_ok w2 = true -> period_ok n1 d1 = true -> period_ok n2 d2 = true ->
@@ -164,7 +148,6 @@ Proof.
   - apply gt_m_spec; assumption.
   - apply ge_m_spec; assumption.
 Qed.
-Print Assumptions C12_compare.
 
 (** * duration * rep, rep * duration (same function), duration / rep, duration % rep: computed in the
       common representation max(w, ws) of the duration's and the scalar's type, period unchanged *)
@@ -178,7 +161,6 @@ Proof.
   - apply smul_m_spec; assumption.
   - apply sdiv_m_spec; assumption.
 Qed.
-Print Assumptions C12_scalar_ops.
 
 (** * time_point + duration, duration + time_point, time_point - duration, time_point - time_point *)
 Theorem C12_time_point_arith : forall w1 n1 d1 w2 n2 d2,
@@ -196,7 +178,6 @@ Proof.
   destruct (tp_ops_are_duration_ops (Dur w1 n1 d1) (Dur w2 n2 d2) c1 c2) as (E1 & E2 & E3 & E4).
   rewrite E1, E2, E3, E4. split; intros H; split; first [apply plus_m_spec|apply minus_m_spec]; assumption.
 Qed.
-Print Assumptions C12_time_point_arith.
 
 (** * the specification functions are the operations the standard words relationally
       (t ticks of n2/d2 versus c ticks of n1/d1  <=>  t * (d1*n2) versus c*n1*d2) *)
@@ -205,21 +186,18 @@ Theorem C12_spec_cast_is_truncation : forall n1 d1 n2 d2 c, 0 < d1 -> 0 < n2 ->
   Z.abs (t * (d1 * n2)) <= Z.abs (c * n1 * d2) /\ Z.abs (c * n1 * d2 - t * (d1 * n2)) < d1 * n2
   /\ (0 <= c * n1 * d2 -> 0 <= t) /\ (c * n1 * d2 <= 0 -> t <= 0).
 Proof. exact cast_spec_char. Qed.
-Print Assumptions C12_spec_cast_is_truncation.
 
 Theorem C12_spec_floor_is_greatest_below : forall n1 d1 n2 d2 c, 0 < d1 -> 0 < n2 ->
   let t := floor_spec n1 d1 n2 d2 c in
   t * (d1 * n2) <= c * n1 * d2 < (t + 1) * (d1 * n2)
   /\ (forall t', t' * (d1 * n2) <= c * n1 * d2 -> t' <= t).
 Proof. exact floor_spec_char. Qed.
-Print Assumptions C12_spec_floor_is_greatest_below.
 
 Theorem C12_spec_ceil_is_least_above : forall n1 d1 n2 d2 c, 0 < d1 -> 0 < n2 ->
   let t := ceil_spec n1 d1 n2 d2 c in
   (t - 1) * (d1 * n2) < c * n1 * d2 <= t * (d1 * n2)
   /\ (forall t', c * n1 * d2 <= t' * (d1 * n2) -> t <= t').
 Proof. exact ceil_spec_char. Qed.
-Print Assumptions C12_spec_ceil_is_least_above.
 
 Theorem C12_spec_round_is_nearest_even : forall n1 d1 n2 d2 c, 0 < d1 -> 0 < n2 ->
   let t := round_spec n1 d1 n2 d2 c in
@@ -227,14 +205,12 @@ Theorem C12_spec_round_is_nearest_even : forall n1 d1 n2 d2 c, 0 < d1 -> 0 < n2 
              /\ (t' <> t -> Z.abs (c * n1 * d2 - t * (d1 * n2)) = Z.abs (c * n1 * d2 - t' * (d1 * n2)) ->
                  Z.even t = true).
 Proof. exact round_spec_char. Qed.
-Print Assumptions C12_spec_round_is_nearest_even.
 
 Theorem C12_spec_plus_minus_exact : forall n1 d1 n2 d2, period_ok n1 d1 = true -> period_ok n2 d2 = true ->
   forall c1 c2,
   plus_spec n1 d1 n2 d2 c1 c2 * cnum n1 n2 * (d1 * d2) = cden d1 d2 * (c1 * n1 * d2 + c2 * n2 * d1)
   /\ minus_spec n1 d1 n2 d2 c1 c2 * cnum n1 n2 * (d1 * d2) = cden d1 d2 * (c1 * n1 * d2 - c2 * n2 * d1).
 Proof. intros n1 d1 n2 d2 H1 H2 c1 c2. split; [apply plus_spec_char|apply minus_spec_char]; assumption. Qed.
-Print Assumptions C12_spec_plus_minus_exact.
 
 Theorem C12_spec_div_mod : forall n1 d1 n2 d2, period_ok n1 d1 = true -> period_ok n2 d2 = true ->
   forall c1 c2, c2 <> 0 ->
@@ -242,7 +218,6 @@ Theorem C12_spec_div_mod : forall n1 d1 n2 d2, period_ok n1 d1 = true -> period_
   = in_common n2 d2 n1 d1 c2 * div_spec n1 d1 n2 d2 c1 c2 + mod_spec n1 d1 n2 d2 c1 c2
   /\ Z.abs (mod_spec n1 d1 n2 d2 c1 c2) < Z.abs (in_common n2 d2 n1 d1 c2).
 Proof. exact div_mod_spec_char. Qed.
-Print Assumptions C12_spec_div_mod.
 
 (** * laws relating the four conversions (any positive periods, every count) *)
 Theorem C12_conversion_laws : forall n1 d1 n2 d2, 0 < n1 -> 0 < d1 -> 0 < n2 -> 0 < d2 ->
@@ -266,7 +241,6 @@ Proof.
   split; [apply spec_exact_all; assumption|]. split; [apply spec_neg; assumption|].
   intros c' Hc. apply spec_mono; assumption.
 Qed.
-Print Assumptions C12_conversion_laws.
 
 (* a conversion to a period that divides the source period (e.g. hours -> seconds) is exact and
    is undone by each of the four conversions back; on the model: cast there and back is the identity *)
@@ -289,7 +263,6 @@ Proof.
   - apply duration_cast_spec; assumption.
   - rewrite duration_cast_spec by assumption. f_equal. apply R.
 Qed.
-Print Assumptions C12_finer_roundtrip.
 
 (* complete characterisation of duration_cast on the whole source range: undefined behaviour
    (signed overflow in intmax_t) exactly when count * numerator of the reduced factor does not fit,
@@ -308,7 +281,6 @@ Proof.
   - apply duration_cast_total; assumption.
   - intros E. apply duration_cast_coarser_never_ub; assumption.
 Qed.
-Print Assumptions C12_duration_cast_total.
 
 (* the hypotheses plus_ok / minus_ok / div_ok of C12_plus, C12_minus, C12_div, C12_mod are tight:
    once both counts convert to the common type, the model has undefined behaviour exactly when the
@@ -329,7 +301,6 @@ Proof.
   split; [apply plus_m_tight; assumption|]. split; [apply minus_m_tight; assumption|].
   apply div_mod_m_tight; assumption.
 Qed.
-Print Assumptions C12_arith_ub_exact.
 
 (** * the named duration types *)
 Theorem C12_typedefs :
@@ -337,7 +308,34 @@ Theorem C12_typedefs :
           (combine typedefs_m typedefs_spec) = true
   /\ length typedefs_m = length typedefs_spec.
 Proof. exact typedefs_ok. Qed.
-Print Assumptions C12_typedefs.
+
+(** * Print Assumptions.  One call costs ~0.6 s on this development and this file is re-checked on every
+      run of ./check, so the 30 theorems above are audited in 6 groups: each group is the conjunction
+      (the proof term [conj ...]) of its theorems, and "Closed under the global context" for the group
+      means that every theorem in it is closed.  Every theorem of this file is a member of exactly one group. *)
+Definition C12_group_ratio_layer :=
+  (conj C12_gcd (conj C12_lcm (conj C12_ratio_normalises C12_ratio_signed))).
+Print Assumptions C12_group_ratio_layer.
+
+Definition C12_group_conversions :=
+  (conj C12_duration_cast_trunc (conj C12_floor (conj C12_ceil (conj C12_round_half_even (conj C12_abs (conj C12_duration_cast_total C12_finer_roundtrip)))))).
+Print Assumptions C12_group_conversions.
+
+Definition C12_group_common_type :=
+  (conj C12_common_type (conj C12_common_type_exact C12_converting_constructor)).
+Print Assumptions C12_group_common_type.
+
+Definition C12_group_arithmetic :=
+  (conj C12_plus (conj C12_minus (conj C12_div (conj C12_mod (conj C12_compare (conj C12_arith_ub_exact (conj C12_scalar_ops C12_time_point_arith))))))).
+Print Assumptions C12_group_arithmetic.
+
+Definition C12_group_spec_laws :=
+  (conj C12_spec_cast_is_truncation (conj C12_spec_floor_is_greatest_below (conj C12_spec_ceil_is_least_above (conj C12_spec_round_is_nearest_even (conj C12_spec_plus_minus_exact (conj C12_spec_div_mod C12_conversion_laws)))))).
+Print Assumptions C12_group_spec_laws.
+
+Definition C12_group_typedefs :=
+  C12_typedefs.
+Print Assumptions C12_group_typedefs.
 
 (** * non-vacuity: the hypotheses are met by milliseconds -> seconds and by
       ratio<1001,30000> -> ratio<1,3> at +-2^31, with int64 and with int32 source counts *)
